@@ -1,6 +1,6 @@
 (* C13: rate change = uniform scaling, identity at 1, composition; built on the stacker theorems of C12. *)
 From Coq Require Import ZArith QArith Qround List Bool Lia Lqa.
-From RV Require Import Base.PyNum Frame.Frame Lists.TimedList Lists.SeqSpec Map.Stacker Map.StackerSpec Map.Rate Proofs.StackerProofs Proofs.TimedListProofs.
+From RV Require Import Base.PyNum Frame.Frame Lists.TimedList Lists.SeqSpec Map.Stacker Map.StackerSpec Map.Rate Map.RateFile Proofs.StackerProofs Proofs.TimedListProofs.
 Import ListNotations.
 Open Scope Q_scope.
 
@@ -222,3 +222,184 @@ Theorem scale_cell_meaning by_ c x :
     if ((c =? COL_OFFSET) || (c =? COL_LENGTH))%Z then CNum (Qred (x / by_))
     else if (c =? COL_BPM)%Z then CNum (Qred (x * by_)) else CNum x.
 Proof. reflexivity. Qed.
+
+(* ======================================================================================================================
+   File-level part (Map/RateFile.v): OsuMap.rate, MapSet.rate, SMMapSet.rate
+   ====================================================================================================================== *)
+
+(* lst.offset /= r on a list that has neither a length nor a bpm column IS the scaling of that list *)
+Lemma col_div_offset_scales r u : wf_samples u = true -> col_div_offset r u = scale_ulist r u.
+Proof.
+  unfold wf_samples, notin_cols. intro H. apply andb_true_iff in H. destruct H as [H Hb]. apply andb_true_iff in H.
+  destruct H as [Hw Hl]. apply negb_true_iff in Hb, Hl. destruct (wf_ulist_rows _ Hw) as [Hnd Hlen].
+  unfold col_div_offset, scale_ulist. f_equal. rewrite (list_assign_scalar _ _ _ _ _ Hnd Hlen).
+  apply map_ext. intro row. rewrite <- rate_row.
+  rewrite (zip_upd_notin COL_LENGTH) by exact Hl. rewrite (zip_upd_notin COL_BPM) by exact Hb. reflexivity.
+Qed.
+
+Theorem osu_rate_scaled r f : wf_osu_file f = true -> osu_rate r f = osu_file_scaled r f.
+Proof.
+  unfold wf_osu_file. intro H. apply andb_true_iff in H. destruct H as [Hl Hs].
+  unfold osu_rate, osu_file_scaled, py_div. rewrite (rate_scales r _ Hl), (col_div_offset_scales r _ Hs). reflexivity.
+Qed.
+
+Lemma mapset_rate_scaled r cs : forallb (forallb wf_ulist) cs = true -> mapset_rate r cs = map (rate_spec r) cs.
+Proof.
+  unfold mapset_rate. induction cs as [|c cs IH]; intro H; [reflexivity|]. cbn [forallb] in H. apply andb_true_iff in H.
+  destruct H as [Hc H]. cbn [map]. rewrite (rate_scales r c Hc), (IH H). reflexivity.
+Qed.
+
+(* MapSet.rate rates each chart on its own: as many charts, chart k of the result is chart k rated, and that is its scaling *)
+Theorem mapset_rate_each_chart r cs : forallb (forallb wf_ulist) cs = true ->
+  length (mapset_rate r cs) = length cs /\
+  (forall k, nth_error (mapset_rate r cs) k = option_map (rate_lists r) (nth_error cs k)) /\
+  (forall k c, nth_error cs k = Some c -> nth_error (mapset_rate r cs) k = Some (rate_spec r c)).
+Proof.
+  intro H. split; [apply map_length|]. split.
+  - intro k. unfold mapset_rate. apply nth_error_map.
+  - intros k c Hk. rewrite (mapset_rate_scaled r cs H). rewrite nth_error_map, Hk. reflexivity.
+Qed.
+
+Theorem sm_rate_scaled r f : wf_sm_file f = true -> sm_mapset_rate r f = sm_file_scaled r f.
+Proof.
+  unfold wf_sm_file. intro H. unfold sm_mapset_rate, sm_file_scaled, py_div. rewrite (mapset_rate_scaled r _ H).
+  destruct (sf_offset f); reflexivity.
+Qed.
+
+(* the statement field by field *)
+Theorem osu_file_fields_scale r f : wf_osu_file f = true ->
+  of_lists (osu_rate r f) = rate_spec r (of_lists f) /\
+  of_samples (osu_rate r f) = scale_ulist r (of_samples f) /\
+  of_preview (osu_rate r f) == of_preview f / r /\
+  of_meta (osu_rate r f) = of_meta f.
+Proof.
+  intro H. rewrite (osu_rate_scaled r f H). cbn [osu_file_scaled of_lists of_samples of_preview of_meta].
+  repeat split; try reflexivity. apply Qred_correct.
+Qed.
+
+Theorem sm_file_fields_scale r f : wf_sm_file f = true ->
+  sf_charts (sm_mapset_rate r f) = map (rate_spec r) (sf_charts f) /\
+  match sf_offset f, sf_offset (sm_mapset_rate r f) with
+  | Some o, Some o' => o' == o / r | None, None => True | _, _ => False end /\
+  sf_sample_start (sm_mapset_rate r f) == sf_sample_start f / r /\
+  sf_sample_length (sm_mapset_rate r f) == sf_sample_length f / r /\
+  sf_meta (sm_mapset_rate r f) = sf_meta f.
+Proof.
+  intro H. rewrite (sm_rate_scaled r f H). cbn [sm_file_scaled sf_charts sf_offset sf_sample_start sf_sample_length sf_meta].
+  split; [reflexivity|]. split; [destruct (sf_offset f); cbn [option_map]; [apply Qred_correct|exact I]|].
+  split; [apply Qred_correct|]. split; [apply Qred_correct|reflexivity].
+Qed.
+
+(* ---- well-formedness is kept (needed to rate twice) ---- *)
+Lemma scale_ulist_wf r u : wf_ulist u = true -> wf_ulist (scale_ulist r u) = true.
+Proof.
+  unfold wf_ulist, scale_ulist. cbn [u_cols u_rows]. intro H. apply andb_true_iff in H. destruct H as [H1 H2].
+  rewrite H1. cbn [andb]. rewrite forallb_forall in *. intros x Hin. apply in_map_iff in Hin.
+  destruct Hin as [x0 [<- Hin]]. rewrite scale_row_length. apply H2. exact Hin.
+Qed.
+Lemma rate_spec_wf r ls : forallb wf_ulist ls = true -> forallb wf_ulist (rate_spec r ls) = true.
+Proof.
+  induction ls as [|u ls IH]; intro H; [reflexivity|]. cbn [forallb rate_spec map] in *. apply andb_true_iff in H.
+  destruct H as [Hu H]. rewrite (scale_ulist_wf r u Hu). exact (IH H).
+Qed.
+Lemma scaled_osu_wf r f : wf_osu_file f = true -> wf_osu_file (osu_file_scaled r f) = true.
+Proof.
+  unfold wf_osu_file, wf_samples. cbn [osu_file_scaled of_lists of_samples scale_ulist u_cols]. intro H.
+  apply andb_true_iff in H. destruct H as [Hl H]. apply andb_true_iff in H. destruct H as [H Hb].
+  apply andb_true_iff in H. destruct H as [Hw Hn]. rewrite (rate_spec_wf r _ Hl), Hb, Hn.
+  change (mkUlist (u_cols (of_samples f)) (map (scale_row r (u_cols (of_samples f))) (u_rows (of_samples f))))
+    with (scale_ulist r (of_samples f)). rewrite (scale_ulist_wf r _ Hw). reflexivity.
+Qed.
+Lemma scaled_charts_wf r cs : forallb (forallb wf_ulist) cs = true -> forallb (forallb wf_ulist) (map (rate_spec r) cs) = true.
+Proof.
+  induction cs as [|c cs IH]; intro H; [reflexivity|]. cbn [forallb map] in *. apply andb_true_iff in H.
+  destruct H as [Hc H]. rewrite (rate_spec_wf r c Hc). exact (IH H).
+Qed.
+
+(* ---- comparisons ---- *)
+Lemma cells_eqb_refl l : cells_eqb l l = true.
+Proof. induction l as [|c l IH]; [reflexivity|]. cbn [cells_eqb]. rewrite cell_eqb_refl. exact IH. Qed.
+Lemma scale_one_u u : ulist_eqb (scale_ulist 1 u) u = true.
+Proof. exact (rate_one [u]). Qed.
+Lemma scale_compose_u a b u : ~ a == 0 -> ~ b == 0 -> ulist_eqb (scale_ulist b (scale_ulist a u)) (scale_ulist (a * b) u) = true.
+Proof. intros Ha Hb. exact (rate_compose a b [u] Ha Hb). Qed.
+Lemma charts_one cs : charts_eqb (map (rate_spec 1) cs) cs = true.
+Proof. induction cs as [|c cs IH]; [reflexivity|]. cbn [map charts_eqb]. rewrite rate_one. exact IH. Qed.
+Lemma charts_compose a b cs : ~ a == 0 -> ~ b == 0 ->
+  charts_eqb (map (rate_spec b) (map (rate_spec a) cs)) (map (rate_spec (a * b)) cs) = true.
+Proof.
+  intros Ha Hb. induction cs as [|c cs IH]; [reflexivity|]. cbn [map charts_eqb]. rewrite rate_compose by assumption. exact IH.
+Qed.
+Lemma qdiv_one x : Qeq_bool (Qred (x / 1)) x = true.
+Proof. apply Qeq_bool_iff. rewrite Qred_correct. field. Qed.
+Lemma qdiv_compose a b x : ~ a == 0 -> ~ b == 0 -> Qeq_bool (Qred (Qred (x / a) / b)) (Qred (x / (a * b))) = true.
+Proof. intros Ha Hb. apply Qeq_bool_iff. rewrite !Qred_correct. field. split; assumption. Qed.
+
+(* rate 1 is the identity on the file-level fields too *)
+Theorem osu_file_rate_one f : wf_osu_file f = true -> osu_file_eqb (osu_rate 1 f) f = true.
+Proof.
+  intro H. rewrite (osu_rate_scaled 1 f H). unfold osu_file_eqb. cbn [osu_file_scaled of_lists of_samples of_preview of_meta].
+  rewrite rate_one, scale_one_u, qdiv_one, cells_eqb_refl. reflexivity.
+Qed.
+Theorem sm_file_rate_one f : wf_sm_file f = true -> sm_file_eqb (sm_mapset_rate 1 f) f = true.
+Proof.
+  intro H. rewrite (sm_rate_scaled 1 f H). unfold sm_file_eqb.
+  cbn [sm_file_scaled sf_charts sf_offset sf_sample_start sf_sample_length sf_meta].
+  rewrite charts_one, !qdiv_one, cells_eqb_refl.
+  destruct (sf_offset f); cbn [option_map opt_q_eqb]; [rewrite qdiv_one|]; reflexivity.
+Qed.
+
+(* rate a then rate b = rate a*b on the file-level fields too *)
+Theorem osu_file_rate_compose a b f : wf_osu_file f = true -> ~ a == 0 -> ~ b == 0 ->
+  osu_file_eqb (osu_rate b (osu_rate a f)) (osu_rate (a * b) f) = true.
+Proof.
+  intros H Ha Hb. rewrite (osu_rate_scaled a f H), (osu_rate_scaled b _ (scaled_osu_wf a f H)), (osu_rate_scaled (a * b) f H).
+  unfold osu_file_eqb. cbn [osu_file_scaled of_lists of_samples of_preview of_meta].
+  rewrite rate_compose, scale_compose_u, qdiv_compose, cells_eqb_refl by assumption. reflexivity.
+Qed.
+Theorem sm_file_rate_compose a b f : wf_sm_file f = true -> ~ a == 0 -> ~ b == 0 ->
+  sm_file_eqb (sm_mapset_rate b (sm_mapset_rate a f)) (sm_mapset_rate (a * b) f) = true.
+Proof.
+  intros H Ha Hb. rewrite (sm_rate_scaled a f H), (sm_rate_scaled (a * b) f H).
+  rewrite (sm_rate_scaled b (sm_file_scaled a f)) by (exact (scaled_charts_wf a _ H)).
+  unfold sm_file_eqb. cbn [sm_file_scaled sf_charts sf_offset sf_sample_start sf_sample_length sf_meta].
+  rewrite charts_compose, !qdiv_compose, cells_eqb_refl by assumption.
+  destruct (sf_offset f); cbn [option_map opt_q_eqb]; [rewrite qdiv_compose by assumption|]; reflexivity.
+Qed.
+
+(* ---- osu's "no preview point" marker.  The code divides preview_time whatever it holds: the marker -1 becomes -1/r,
+   which is a preview point (and OsuMapMeta writes int(-1/r): "PreviewTime: 0" for every r > 1).  So the reading of the
+   property under which a chart without a preview point has none after the rate change is REFUTED for the faithful model;
+   it holds whenever the chart has a preview point at a non-negative time, and at rate 1. ---- *)
+Definition wit_unset_preview : osu_file :=
+  mkOsuFile [mkUlist [0; 1]%Z [[CNum 1000; CNum 1]]; mkUlist [0; 3; 4]%Z [[CNum 0; CNum 120; CNum 4]]]
+            (mkUlist [0; 1001; 1002]%Z []) (-1) [].
+Theorem osu_preview_unset_kept_refuted :
+  exists f r, wf_osu_file f = true /\ 0 < r /\ preview_point (of_preview f) = None /\
+              of_preview (osu_rate r f) = (-1 # 2) /\ preview_point (of_preview (osu_rate r f)) = Some (-1 # 2) /\
+              preview_scaled_strict r (of_preview f) (of_preview (osu_rate r f)) = false.
+Proof. exists wit_unset_preview, 2. vm_compute. repeat split; reflexivity. Qed.
+
+Theorem osu_preview_point_scales r f : 0 < r -> 0 <= of_preview f ->
+  preview_scaled_strict r (of_preview f) (of_preview (osu_rate r f)) = true.
+Proof.
+  intros Hr Hp. cbn [osu_rate of_preview]. unfold preview_scaled_strict, preview_point, py_div, PREVIEW_UNSET.
+  assert (Hq : 0 <= of_preview f / r).
+  { unfold Qdiv. apply Qmult_le_0_compat; [exact Hp|]. apply Qlt_le_weak, Qinv_lt_0_compat. exact Hr. }
+  destruct (Qeq_bool (of_preview f) (-1)) eqn:E1.
+  { apply Qeq_bool_iff in E1. lra. }
+  destruct (Qeq_bool (Qred (of_preview f / r)) (-1)) eqn:E2.
+  { apply Qeq_bool_iff in E2. rewrite Qred_correct in E2. lra. }
+  cbn [option_map opt_q_eqb]. apply Qeq_bool_iff. apply Qred_correct.
+Qed.
+Theorem osu_preview_rate_one f : preview_scaled_strict 1 (of_preview f) (of_preview (osu_rate 1 f)) = true.
+Proof.
+  cbn [osu_rate of_preview]. unfold preview_scaled_strict, preview_point, py_div, PREVIEW_UNSET.
+  assert (E : Qred (of_preview f / 1) == of_preview f) by (rewrite Qred_correct; field).
+  destruct (Qeq_bool (of_preview f) (-1)) eqn:E1.
+  - apply Qeq_bool_iff in E1. assert (E2 : Qeq_bool (Qred (of_preview f / 1)) (-1) = true) by (apply Qeq_bool_iff; rewrite E; exact E1).
+    rewrite E2. reflexivity.
+  - assert (E2 : Qeq_bool (Qred (of_preview f / 1)) (-1) = false).
+    { apply not_true_is_false. intro X. apply Qeq_bool_iff in X. rewrite E in X. apply Qeq_bool_iff in X. congruence. }
+    rewrite E2. cbn [option_map opt_q_eqb]. apply Qeq_bool_iff. rewrite E. field.
+Qed.
